@@ -513,13 +513,14 @@ type SpecSet struct {
 	UFs       map[string]*UFDecl
 	Guarded   map[string]string // "Server.peers" -> "Server.mu"
 	Joins     map[string]string // "fsm.doneCh" -> ghost field cleared on the owner when a receive from it returns
+	Delivers  map[string]bool   // joins-channels on which the goroutine sends exactly one value before closing
 }
 
 func newSpecSet() *SpecSet {
 	return &SpecSet{
 		Contracts: map[string]*Contract{}, Externs: map[string]*Contract{}, Callbacks: map[string]*Contract{},
 		Pures: map[string]*PureFn{}, Ghosts: map[string]*GhostField{}, ChanInvs: map[string]*PureFn{},
-		UFs: map[string]*UFDecl{}, Guarded: map[string]string{}, Joins: map[string]string{},
+		UFs: map[string]*UFDecl{}, Guarded: map[string]string{}, Joins: map[string]string{}, Delivers: map[string]bool{},
 	}
 }
 
@@ -565,7 +566,7 @@ func loadSpecLines(path string) ([]specLine, error) {
 }
 
 var clauseKeywords = map[string]bool{
-	"func": true, "extern": true, "callback": true, "pure": true, "ghostfield": true, "chaninv": true, "axiom": true, "uf": true, "ghostvar": true, "guardedby": true, "joins": true,
+	"func": true, "extern": true, "callback": true, "pure": true, "ghostfield": true, "chaninv": true, "axiom": true, "uf": true, "ghostvar": true, "guardedby": true, "joins": true, "delivers": true,
 	"requires": true, "ensures": true, "modifies": true, "let": true, "ghost": true, "returns": true,
 	"at": true, "trusted": true, "noinline": true, "params": true,
 }
@@ -718,6 +719,13 @@ func (ss *SpecSet) parseLine(l specLine, cur **Contract) error {
 			return fmt.Errorf("unknown ghost sort %q", srt)
 		}
 		ss.Ghosts[name] = g
+		*cur = nil
+		return nil
+	case "delivers":
+		// delivers Type.chanField : while the joined goroutine is flagged running,
+		// a receive yields the one value it sends before closing the channel
+		f, _ := splitWord(rest)
+		ss.Delivers[f] = true
 		*cur = nil
 		return nil
 	case "joins":
